@@ -20,6 +20,13 @@ type symstr struct {
 	e *Term
 }
 
+// symf is a float64 that is a positive multiple of a symbolic int64 (what
+// Duration.Seconds() etc. return for a symbolic duration). Only sign tests
+// against the constant 0 are supported.
+type symf struct {
+	e *Term // the int64 it was derived from (same sign, zero iff zero)
+}
+
 // engineErr is raised for anything the engine cannot model. It makes the run
 // inconclusive; it is never read as "property holds".
 type engineErr struct{ msg string }
@@ -143,7 +150,7 @@ func mkSym(k types.BasicKind, e *Term) value {
 
 func isSym(v value) bool {
 	switch v.(type) {
-	case sym, symstr:
+	case sym, symstr, symf:
 		return true
 	}
 	return false
@@ -182,6 +189,12 @@ func hasSym(v value) bool {
 // symBinop implements binary operators when at least one operand is a sym.
 // Division by a symbolic zero must have been excluded by the caller.
 func symBinop(op token.Token, x, y value) value {
+	if fx, ok := x.(symf); ok {
+		return symfCmp(op, fx, y, false)
+	}
+	if fy, ok := y.(symf); ok {
+		return symfCmp(op, fy, x, true)
+	}
 	if _, ok := x.(symstr); ok {
 		return symStrBinop(op, x, y)
 	}
@@ -347,5 +360,41 @@ func symStrBinop(op token.Token, x, y value) value {
 		return symstr{mkUF("strcat", wStr, tx, ty)}
 	}
 	unsupported("operator %s on a symbolic string", op)
+	return nil
+}
+
+// symfCmp compares a symf with the float constant 0 (swapped: 0 op f).
+func symfCmp(op token.Token, f symf, other value, swapped bool) value {
+	if c, ok := other.(float64); !ok || c != 0 {
+		unsupported("floating-point operation %s on a symbolic duration (only comparison with 0 is modelled)", op)
+	}
+	z := mkConst(64, 0)
+	if swapped {
+		switch op {
+		case token.LSS:
+			op = token.GTR
+		case token.GTR:
+			op = token.LSS
+		case token.LEQ:
+			op = token.GEQ
+		case token.GEQ:
+			op = token.LEQ
+		}
+	}
+	switch op {
+	case token.EQL:
+		return mkSym(types.Bool, mkEq(f.e, z))
+	case token.NEQ:
+		return mkSym(types.Bool, mkNot(mkEq(f.e, z)))
+	case token.LSS:
+		return mkSym(types.Bool, mkBin(OpSlt, f.e, z))
+	case token.LEQ:
+		return mkSym(types.Bool, mkBin(OpSle, f.e, z))
+	case token.GTR:
+		return mkSym(types.Bool, mkBin(OpSlt, z, f.e))
+	case token.GEQ:
+		return mkSym(types.Bool, mkBin(OpSle, z, f.e))
+	}
+	unsupported("floating-point operation %s on a symbolic duration", op)
 	return nil
 }
